@@ -484,6 +484,14 @@ fn bam_roundtrip(tier: &str) -> Result<String, String> {
         loop { match rd.read_record(&mut r) { Ok(0) => break, Ok(_) => { let b = sam::alignment::RecordBuf::try_from_alignment_record(&h, &r).map_err(|e| format!("lazy record {} does not convert: {e}", out.len()))?;
             // lazy accessors agree with the eager decode
             if r.flags() != b.flags() || r.alignment_start().transpose().ok().flatten() != b.alignment_start() || r.sequence().len() != b.sequence().len() || r.quality_scores().as_ref().len() != b.quality_scores().as_ref().len() { return Err(format!("lazy accessors of record {} disagree with its eager decode", out.len())); }
+            // every split of the lazy sequence: the two halves, iterated and indexed, are the bases of the whole
+            { let sq = r.sequence(); let n = sq.len(); let whole: Vec<u8> = sq.iter().collect();
+              if whole != b.sequence().as_ref() { return Err(format!("the lazy sequence of record {} iterates to other bases than its eager decode", out.len())); }
+              let mids: Vec<usize> = if n <= 40 { (0..=n).collect() } else { vec![0, 1, 2, 3, n / 2, n / 2 + 1, n - 2, n - 1, n] };
+              for mid in mids { match sq.split_at_checked(mid) { None => return Err(format!("split_at_checked({mid}) of a {n}-base lazy sequence returns None")), Some((x, y)) => {
+                  let (xi, yi): (Vec<u8>, Vec<u8>) = (x.iter().collect(), y.iter().collect());
+                  let (xg, yg): (Vec<u8>, Vec<u8>) = ((0..x.len()).filter_map(|i| x.get(i)).collect(), (0..y.len()).filter_map(|i| y.get(i)).collect());
+                  if x.len() != mid || y.len() != n - mid || xi != whole[..mid] || yi != whole[mid..] || xg != whole[..mid] || yg != whole[mid..] { return Err(format!("lazy sequence of {n} bases split at {mid}: the halves iterate to {} + {} bases ({:?} | {:?}), the whole is {:?}", xi.len(), yi.len(), String::from_utf8_lossy(&xi[..xi.len().min(12)]), String::from_utf8_lossy(&yi[..yi.len().min(12)]), String::from_utf8_lossy(&whole[..whole.len().min(24)]))); } } } } }
             out.push(b) } Err(e) => return Err(format!("read_record fails at record {}: {e}", out.len())) } }
         Ok(out)
     });
@@ -640,7 +648,10 @@ fn cram_roundtrip(tier: &str) -> Result<String, String> {
         let mut rd = noodles_cram::io::reader::Builder::default().set_reference_sequence_repository(repo.clone()).build_from_reader(data);
         let h = rd.read_header().map_err(|e| format!("read_header: {e}"))?;
         let mut out = Vec::new();
-        for r in rd.records(&h) { let r = r.map_err(|e| format!("reading record {}: {e}", out.len()))?; out.push(sam::alignment::RecordBuf::try_from_alignment_record(&h, &r).map_err(|e| format!("converting record {}: {e}", out.len()))?); }
+        for r in rd.records(&h) { let r = r.map_err(|e| format!("reading record {}: {e}", out.len()))?;
+            // the record as the SAM writer would render it: every tag once
+            { let mut seen: Vec<sam::alignment::record::data::field::Tag> = Vec::new(); for f in sam::alignment::Record::data(&r).iter() { let (t, _) = f.map_err(|e| format!("data of record {}: {e}", out.len()))?; if seen.contains(&t) { return Err(format!("the record read back yields the tag {}{} twice (cram::Record::data().iter(), what a SAM writer renders)", t.as_ref()[0] as char, t.as_ref()[1] as char)); } seen.push(t); } }
+            out.push(sam::alignment::RecordBuf::try_from_alignment_record(&h, &r).map_err(|e| format!("converting record {}: {e}", out.len()))?); }
         Ok(out)
     };
     let mut configs: Vec<(String, bool, Option<BlockContentEncoderMap>)> = vec![("default".into(), true, None), ("absolute positions".into(), false, None)];
